@@ -40,7 +40,7 @@ func runRace(rc *Race) (string, string, string) {
 	if !rc.JTI {
 		jti = "-"
 	}
-	tok := must(e.ca.Token(fixture.TokenOpts{Subject: "race.example.com", JTI: jti, IssuedAt: time.Now()}))
+	tok := must(e.ca.Token(fixture.TokenOpts{Subject: "race-" + randHex() + ".example.com", JTI: jti, IssuedAt: time.Now()}))
 	var wg sync.WaitGroup
 	var auth, crashed int32
 	barrier := make(chan struct{})
